@@ -17,7 +17,8 @@ IsoFormals == { <<"instantiation_error", 0>>, <<"type_error", 2>>, <<"domain_err
 Allowed == {"answers", "fail", "error"}
 Forbidden == {"crash", "hang", "panic", "non_iso_error"}
 TokenKinds == {"name", "op_minus", "op_neck", "var", "int", "float", "dq", "bq", "open", "close", "open_list", "close_list", "open_curly", "close_curly", "bar", "comma", "end", "quoted", "op_infix"}
-Shapes == {"var", "atom", "nil", "int", "maxint", "minint", "float", "compound", "list", "partial", "improper", "charlist", "callable_cut", "stream", "pi", "minus1", "negint", "codes", "pair_list", "op_atom"}
+Shapes == {"var", "atom", "nil", "int", "maxint", "minint", "float", "compound", "list", "partial", "improper", "charlist", "callable_cut", "stream", "pi", "minus1", "negint", "codes", "pair_list", "op_atom",
+           "app_chars", "app_cells"}      \* partial lists made by append/3 from a char list / from './2 cells (other representations of the prefix)
 CONSTANTS NT,          \* maximal number of tokens
           SMALLSHAPES  \* TRUE: a 9-shape subset for arity 3 (quick)
 Small == {"var", "atom", "int", "maxint", "float", "compound", "list", "partial", "callable_cut"}
